@@ -46,7 +46,14 @@ def unOfName (s : String) : Except String UnK :=
   | "extractYear" => pure .extractYear | "count" => pure .count | "sum" => pure .sum | "min" => pure .min | "max" => pure .max
   | "avg" => pure .avg | "ceil" => pure .ceil | "floor" => pure .floor | "round" => pure .round | "over" => pure .over
   | "filter" => pure .filter
-  | s => if s.startsWith "cast_" then do pure (.cast (← tyOfName (s.drop 5).toString)) else throw ("un " ++ s)
+  | "anyValue" => pure .anyValue | "stddev" => pure .stddev | "variance" => pure .variance | "boolAnd" => pure .boolAnd
+  | "boolOr" => pure .boolOr | "groupConcat" => pure .groupConcat | "approxDistinct" => pure .approxDistinct
+  | "lag" => pure .lag | "lead" => pure .lead | "firstValue" => pure .firstValue | "lastValue" => pure .lastValue
+  | "subq" => pure .subq | "exists" => pure .exists
+  | s =>
+    if s.startsWith "cast_" then do pure (.cast (← tyOfName (s.drop 5).toString))
+    else if s.startsWith "tryCast_" then do pure (.tryCast (← tyOfName (s.drop 8).toString))
+    else throw ("un " ++ s)
 
 def binOfName (s : String) : Except String BinK :=
   match s with
@@ -54,13 +61,30 @@ def binOfName (s : String) : Except String BinK :=
   | "mod" => pure .mod | "pow" => pure .pow | "eq" => pure .eq | "neq" => pure .neq | "lt" => pure .lt | "le" => pure .le | "gt" => pure .gt
   | "ge" => pure .ge | "and" => pure .and | "or" => pure .or | "dpipe" => pure .dpipe | "like" => pure .like
   | "coalesce" => pure .coalesce | "nullif" => pure .nullif | "concat" => pure .concat | "greatest" => pure .greatest
-  | "least" => pure .least | "corr" => pure .corr
+  | "least" => pure .least | "corr" => pure .corr | "isDistinct" => pure .isDistinct | "ilike" => pure .ilike
+  | "arrayElem" => pure .arrayElem
   | _ => throw ("bin " ++ s)
 
 def ternOfName (s : String) : Except String TernK :=
   match s with
   | "caseWhen" => pure .caseWhen | "iff" => pure .iff
   | _ => throw ("tern " ++ s)
+
+def pred3OfName (s : String) : Except String Pred3K :=
+  match s with
+  | "between" => pure .between | "inList" => pure .inList
+  | _ => throw ("pred3 " ++ s)
+
+def win0OfName (s : String) : Except String Win0K :=
+  match s with
+  | "rowNumber" => pure .rowNumber | "rank" => pure .rank | "denseRank" => pure .denseRank | "cumeDist" => pure .cumeDist
+  | "percentRank" => pure .percentRank
+  | _ => throw ("win0 " ++ s)
+
+def numLitOfName (s : String) : Except String NumLitK :=
+  match s with
+  | "big" => pure .big | "huge" => pure .huge | "overflow" => pure .overflow | "sci" => pure .sci
+  | _ => throw ("numlit " ++ s)
 
 def naryOfName (s : String) : Except String NaryK :=
   match s with
@@ -92,6 +116,9 @@ partial def parseE (j : Json) : Except String TExpr := do
   | "null" => pure .nullLit
   | "bool" => pure .boolLit
   | "iv" => pure (.interval (← (arg 1).getBool?))
+  | "numlit" => pure (.numLit (← numLitOfName (← (arg 1).getStr?)))
+  | "win0" => pure (.win0 (← win0OfName (← (arg 1).getStr?)))
+  | "pred3" => pure (.pred3 (← pred3OfName (← (arg 1).getStr?)) (← parseE (arg 2)) (← parseE (arg 3)) (← parseE (arg 4)))
   | "un" => pure (.un (← unOfName (← (arg 1).getStr?)) (← parseE (arg 2)))
   | "bin" => pure (.bin (← binOfName (← (arg 1).getStr?)) (← parseE (arg 2)) (← parseE (arg 3)))
   | "tern" => pure (.tern (← ternOfName (← (arg 1).getStr?)) (← parseE (arg 2)) (← parseE (arg 3)) (← parseE (arg 4)))
